@@ -56,6 +56,10 @@ func genText(t *rapid.T) textCase {
 			sb.WriteString(" ")
 		}
 	}
+	if gen.Chance(t, 2, "longtoken") {
+		sb.WriteString(strings.Repeat("y", rapid.IntRange(300, 5000).Draw(t, "toklen")))
+		sb.WriteString(" z // c\n")
+	}
 	if pbt.Thorough() && gen.Chance(t, 1, "longline") {
 		sb.WriteString(strings.Repeat("x", 1<<20))
 	}
@@ -527,7 +531,15 @@ type mpCase struct {
 }
 
 var mpPaths = []string{"example.com/m", "example.com/a/v2", "gopkg.in/yaml.v2", "m", "std/internal", "example.com/Upper", "a.b/c~d", "module", "module.example.com/x", "modules", "example.com/module", "x+y/z", "example.com/m.v2"}
+var mpLong = []string{"LONGCOMMENT:65535", "LONGCOMMENT:65536", "LONGCOMMENT:70000", "LONGGO:66000", "LONGCOMMENT:300000"}
 var mpBefore = []string{"", "// module other.example/x\n", "\n\n", "// comment\n\n", "go 1.21\n", "require modulex.example/y v1.0.0\n", "require (\n\tmodule.example/z v1.0.0\n\tmodules v1.0.0\n)\n", "godebug module=1\n", "tool module\n", "tool (\n\tmodule\n)\n", "\t \n"}
+
+func genBefore(t *rapid.T) string {
+	if gen.Chance(t, 3, "longbefore") {
+		return mpLong[gen.Uniform(t, len(mpLong), "long")]
+	}
+	return mpBefore[gen.Uniform(t, len(mpBefore), "before")]
+}
 
 func genMP(t *rapid.T) mpCase {
 	f := modgen.Gen(t, modgen.Options{OddPaths: true})
@@ -539,7 +551,7 @@ func genMP(t *rapid.T) mpCase {
 		}
 	}
 	f.Stmts = keep
-	return mpCase{File: f, Path: mpPaths[rapid.IntRange(0, len(mpPaths)-1).Draw(t, "path")], Style: rapid.IntRange(0, 4).Draw(t, "style"), Before: mpBefore[rapid.IntRange(0, len(mpBefore)-1).Draw(t, "before")]}
+	return mpCase{File: f, Path: mpPaths[rapid.IntRange(0, len(mpPaths)-1).Draw(t, "path")], Style: rapid.IntRange(0, 4).Draw(t, "style"), Before: genBefore(t)}
 }
 
 // knownShape reports the one recorded disagreement: a block line whose first token is the bare word "module"
@@ -595,7 +607,31 @@ func checkMP(c mpCase) pbt.Result {
 	}
 	f := c.File
 	f.CRLF = false
-	text := c.Before + line + "\n" + f.Render()
+	before := c.Before
+	if strings.HasPrefix(before, "LONGCOMMENT:") || strings.HasPrefix(before, "LONGGO:") {
+		// a very long line in front of the module directive (line buffers have limits; the parsers do not)
+		var n int
+		fmt.Sscanf(before[strings.Index(before, ":")+1:], "%d", &n)
+		if n < 10 || n > 2000000 {
+			r.Skip = true
+			return r
+		}
+		if strings.HasPrefix(before, "LONGGO:") {
+			before = "go 1.21 // " + strings.Repeat("c", n-12) + "\n"
+			// the file must not have a second go directive
+			var keep []modgen.Stmt
+			for _, s := range f.Stmts {
+				if s.Verb != "go" {
+					keep = append(keep, s)
+				}
+			}
+			f.Stmts = keep
+		} else {
+			before = "// " + strings.Repeat("c", n-4) + "\n"
+		}
+		r.Classes = append(r.Classes, "long line before the module directive")
+	}
+	text := before + line + "\n" + f.Render()
 	if c.File.CRLF {
 		text = strings.ReplaceAll(text, "\n", "\r\n")
 	}
